@@ -26,7 +26,7 @@ def history(draw):
     ops = []
     for _ in range(draw(st.integers(0, 6))):
         kind = draw(st.sampled_from(['ins-between', 'ins-equal', 'ins-equal', 'ins-above', 'ins-free', 'ins-above',
-                                     'pop', 'pop', 'pop0', 'reload-dict', 'reload-json']))
+                                     'ins-below', 'pop', 'pop', 'pop0', 'reload-dict', 'reload-json']))
         if kind.startswith('ins'):
             ops.append({'op': kind, 'j': draw(st.integers(0, 11)), 'u': draw(unit),
                         'slope': draw(slope_st)})
@@ -49,7 +49,9 @@ def f_ref(pairs, x):
         hi = pairs[k + 1][0] if k + 1 < len(pairs) else math.inf
         if x <= b:
             break
-        total += s * (min(x, hi) - b)
+        lo = max(b, 0.0)           # (a breakpoint inserted below 0 starts before the origin; coverages are >= 0)
+        if min(x, hi) > lo:
+            total += s * (min(x, hi) - lo)
     return total
 
 
@@ -62,6 +64,8 @@ def _insert_value(op, bps):
             return op['u'] * 1.0
         j = op['j'] % (len(bps) - 1)
         return bps[j] + op['u'] * (bps[j + 1] - bps[j])
+    if op['op'] == 'ins-below':
+        return min(bps[0], 0.0) - op['u']
     if op['op'] == 'ins-above':
         last = bps[-1]
         return last + op['u'] * max(1.0 - last, 0.0)
@@ -97,6 +101,7 @@ def _check_state(ctx, obj, model, case, step):
             xs.append(ivs[-1] + xd['u'] * 0.5)
         else:
             xs.append(1.5 * xd['u'])
+    xs = [max(x, 0.0) for x in xs]       # coverages are never negative
     for x in xs:
         ref = f_ref(pairs, x)
         for T in (case['T'], case['T2']):
@@ -135,11 +140,14 @@ def check_history(case, ctx):
     if not _check_state(ctx, obj, model, case, 0):
         return
     n_above = n_pop = 0
+    kept = []
     for step, op in enumerate(case['ops'], 1):
         kind = op['op']
         if kind.startswith('ins'):
             bps = [float(v) for v in obj.intervals]
             v = _insert_value(op, bps)
+            if v < bps[0]:
+                ctx.label('insert-below-first')
             if v >= bps[-1]:
                 n_above += 1
                 ctx.label('insert-at-or-above-last')
@@ -175,6 +183,7 @@ def check_history(case, ctx):
                 return
             ctx.label('pop0')
         elif kind == 'reload-dict':
+            kept.append((obj, list(model), step))       # the serialised-from object lives on, untouched from here
             obj = PiecewiseCovEffect.from_dict(obj.to_dict())
             ctx.label('reload')
         elif kind == 'reload-json':
@@ -185,6 +194,16 @@ def check_history(case, ctx):
                 return
             ctx.label('reload')
         if not _check_state(ctx, obj, model, case, step):
+            return
+    # objects that were serialised earlier are unaffected by what happened to their reloaded copies since
+    for old_obj, old_model, at in kept:
+        if at < len(case['ops']):
+            ctx.label('kept-object-rechecked')
+        if sorted(zip([float(v) for v in old_obj.intervals], [float(v) for v in old_obj.slopes])) != sorted(old_model):
+            ctx.fail('C17.history/serialised-object-changed-later', 'object serialised at step %d now has %r/%r, had %r' % (
+                at, list(old_obj.intervals), list(old_obj.slopes), sorted(old_model)))
+            return
+        if not _check_state(ctx, old_obj, old_model, case, at):
             return
     # every history ends with both reload routes (deterministic, cheap)
     last = len(case['ops']) + 1
@@ -213,10 +232,10 @@ def check_history(case, ctx):
 CLAUSES = [
     Clause('C17.history', history(), check_history, 1500, 15000,
            'initial 1-6 strictly ascending breakpoints from 0 in [0,1], slopes +-100 kcal/mol; up to 6 '
-           'operations insert(between/equal/above/free), pop(i>=1), pop(0), to_dict/from_dict and JSON '
+           'operations insert(below/between/equal/above/free), pop(i>=1), pop(0), to_dict/from_dict and JSON '
            'reload; after every step: ascending, pairs = model multiset, value at 1-4 coverages (on / '
            'between / beyond breakpoints) at two temperatures = exact integral of the listed slopes, '
-           'continuity at each breakpoint, zero S/Cv/Cp. Non-trivial = history with an insert at/above the '
+           'continuity at each breakpoint, zero S/Cv/Cp; objects serialised mid-history are re-checked at the end. Non-trivial = history with an insert at/above the '
            'last breakpoint and a pop'),
 ]
 ASSUMPTIONS = ['R(kcal/mol/K) from pmutt.constants (judged by C12)',
